@@ -277,6 +277,7 @@ def assignIdent (name : String) (v : Val) (env : Env) : M (R Val) :=
   | some (.cap _) =>
     match lookupEnv selfKey env, updEnvCap name v env with
     | some (.cap (.clos _ _ id)), some env' => do
+      if (← get).active.count id ≥ 2 then throw .unc
       modify fun s => { s with clos := s.clos.modify (id - 1) fun c =>
         { c with captured := (name, .cap (.other "poison")) :: c.captured } }
       pure (.val v env')
